@@ -37,10 +37,10 @@ TRUSTED_BASE = ['pyvc/effects.py (abstract interpreter)', 'numpy view/copy contr
 ALLOWED_SOURCE_PREFIX = ('param:syndrome', 'const', 'global:', 'cache:', 'field:', 'extret:', 'ext:', 'self', 'param:kwargs')
 
 
-def analyse(name):
+def analyse(name, forced=None):
     c = dcls(name)
     f = c.lookup('decode')
-    ef = Effects(class_cfg=class_cfg())
+    ef = Effects(class_cfg=class_cfg(), forced=forced)
     r = ef.analyse(f, self_cls=c)
     return c, f, r
 
@@ -68,22 +68,39 @@ def ob(name, which):
             if any(d.startswith(tainted) for d in v.deps):
                 bad.append((fld, ln, fn))
         lazy = LAZY_FIELDS.get(name, set())
-        other = sorted({fld for fld, ln, v, fn in r.field_writes if '.' not in fld and fld not in lazy and not fld.startswith('_')})
+        # own fields assigned during decode that are neither tainted (refuted above) nor the lazily built collaborators: a memo of configuration /
+        # noise data.  Whether the result can then depend on the call history is outside this frame rule -> undecided here, the bounded clause decides
+        other = sorted({fld for fld, ln, v, fn in r.field_writes if '.' not in fld and fld not in lazy and not any(d.startswith(tainted) for d in v.deps)})
         # in-place writes into objects held in fields of self (not the lazily cached code properties)
         fw = sorted({(w[0], w[1]) for w in r.writes if w[0].startswith('field:') and not w[0].startswith(('field:code', 'field:error_model'))})
-        # read-before-write on third-party objects
-        first = {}
-        for obj, m, ln, args, kws in r.ext_calls:
-            first.setdefault(obj, (m, ln, args))
+        # third-party objects with settable channel state.  Case split over the CONFIGURATION tests of decode (branch tests that read only
+        # constructor-time fields / cached code properties, hence have the same value in every call of one decoder object).  In each case: an object
+        # that can receive syndrome-dependent channel probabilities must have every use DOMINATED (earlier, in an enclosing region, on every path)
+        # by an update_channel_probs of this call - otherwise probabilities conditioned on an earlier syndrome can still be in place.
+        written = {fld for fld, ln, v, fn in r.field_writes if '.' not in fld}
+        cfg_tests = []
+        for src_t, deps, ln, fn in r.tests:
+            if src_t in cfg_tests or not deps or fn.split('::')[0] != f.ref.split('::')[0]:
+                continue            # only tests written in the decoder's own module
+            if all(d == 'const' or d.startswith('cache:') or (d.startswith('field:') and d[6:].split('.')[0] not in written) for d in deps):
+                cfg_tests.append(src_t)
+        cfg_tests = cfg_tests[:6]
         rbw = []
-        for obj, (m, ln, args) in first.items():
-            if any(mm == 'update_channel_probs' for o2, mm, _, _, _ in r.ext_calls if o2 == obj):
-                if m != 'update_channel_probs':
-                    rbw.append('%s: first call is %s (line %d), channel probabilities of the previous decode still in place' % (obj, m, ln))
-                elif any(d.startswith(tainted) for a in args for d in a.deps):
-                    rbw.append('%s: initial channel probabilities depend on the syndrome' % obj)
-        problems = (['syndrome-dependent value stored in field %s (line %d, %s)' % b for b in bad]
-                    + ['field %s assigned during decode' % o for o in other] + ['in-place write into %s (line %d)' % w for w in fw] + rbw)
+        for gamma in itertools.product((True, False), repeat=len(cfg_tests)):
+            forced = dict(zip(cfg_tests, gamma))
+            rg = analyse(name, forced)[2] if cfg_tests else r
+            calls = list(zip(rg.ext_calls, rg.ext_ctx))
+            dirty = {c_[0] for c_, _ in calls if c_[1] == 'update_channel_probs' and any(d.startswith(tainted) for a in c_[3] for d in a.deps)}
+            for (obj, m, ln, args, kws), cx in calls:
+                if obj not in dirty or m == 'update_channel_probs':
+                    continue
+                if not any(c2[0] == obj and c2[1] == 'update_channel_probs' and Effects.dominates(cx2, cx) for c2, cx2 in calls):
+                    rbw.append('%s.%s (line %d) can run with channel probabilities left by an earlier decode (conditioned on that decode\'s syndrome): '
+                               'no update_channel_probs precedes it on every path%s' % (obj, m, ln, (' when ' + ', '.join('%s is %s' % kv for kv in forced.items())) if forced else ''))
+        rbw = sorted(set(rbw))[:4]
+        problems = (['syndrome-dependent value stored in field %s (line %d, %s)' % b for b in bad] + ['in-place write into %s (line %d)' % w for w in fw] + rbw)
+        if other and not problems:
+            raise Unsupported('decode assigns field(s) %s of the decoder (not syndrome-dependent): history independence is outside the frame rule' % other)
         return _res('refuted' if problems else 'discharged', '; '.join(problems) or 'no syndrome-dependent state stored; third-party channel state overwritten before use', r,
                     model=dict(decoder=name, problems=problems) if problems else None)
     if which == 'extstate':
@@ -132,11 +149,12 @@ from bounded import decoders as BD    # noqa
 from bounded import codes as BC    # noqa
 
 
-def native_history(dname, cname, size, defo, kw, rnd, nsyn=6):
+def native_history(dname, cname, size, defo, kw, rnd, nsyn=6, dkw=None):
     """run-time contract: decode is a function of the syndrome; arguments and cached tables untouched"""
     code = BC.make(cname, size, defo, kw)
-    dec, em = BD.build(dname, code)
-    syns = BD.syndromes(code, rnd, nsyn)
+    dkw = dict(dkw or {})
+    dec, em = BD.build(dname, code, **dkw)
+    syns = BD.syndromes(code, rnd, nsyn) + BD.sector_syndromes(code, rnd, 2)
     snap0 = BD.snapshot(code, em, 0.1)
     hist = []
     for k, s in enumerate(syns + [syns[0]] + syns[::-1]):
@@ -149,7 +167,7 @@ def native_history(dname, cname, size, defo, kw, rnd, nsyn=6):
             return 'decode modified the caller\'s syndrome array (positions %s)' % np.nonzero(arg != s)[0][:6].tolist(), dict(history=[h.tolist() for h in hist], syndrome=s.tolist())
         if BD.snapshot(code, em, 0.1) != snap0:
             return 'decode altered a cached table (probability tables / H / Hx / Hz / logicals)', dict(history=[h.tolist() for h in hist], syndrome=s.tolist())
-        fresh, _ = BD.build(dname, BC.make(cname, size, defo, kw))
+        fresh, _ = BD.build(dname, BC.make(cname, size, defo, kw), **dkw)
         want = np.asarray(BD.quiet_decode(fresh, s.copy()))
         if dname in BD.RANDOMISED:
             ok = got.shape == want.shape and set(np.unique(got).tolist()) <= {0, 1}
@@ -179,7 +197,7 @@ def replay(r):
 
 def replay_file(data):
     inp = data.get('input') or {}
-    why, _ = native_history(inp['decoder'], inp['code'], tuple(inp['size']), inp.get('deformation'), {}, random.Random(0))
+    why, _ = native_history(inp['decoder'], inp['code'], tuple(inp['size']), inp.get('deformation'), {}, random.Random(0), dkw=inp.get('decoder_options'))
     return dict(confirmed=bool(why), detail=why or 'holds', input=inp)
 
 
@@ -201,10 +219,22 @@ def bounded(tier, seed):
             if why:
                 viol.append(dict(obligation='C06.bounded[%s]' % d, input=dict(decoder=d, code=cname, size=list(size), deformation=defo, **(inp or {})), detail=why))
                 break
+    # non-default decoder options that change what state a decode leaves behind
+    for (d, cname, size, dkw) in [('BeliefPropagationOSDDecoder', 'Toric2DCode', (3, 3), {'channel_update': True}), ('BeliefPropagationOSDDecoder', 'Planar2DCode', (3, 3), {'channel_update': True}),
+                                  ('BeliefPropagationOSDDecoder', 'Toric3DCode', (2, 2, 2), {'channel_update': True}), ('BeliefPropagationOSDDecoder', 'Toric2DCode', (4, 4), {'channel_update': True, 'bp_method': 'product_sum'})]:
+        for rep in range(2 if tier == 'quick' else 6):
+            try:
+                why, inp = native_history(d, cname, size, None, {}, rnd, nsyn=5 if tier == 'quick' else 10, dkw=dkw)
+            except Exception as e:      # noqa
+                why, inp = 'harness/constructor raises %s: %s' % (type(e).__name__, e), {}
+            ev += 1; nt.add((d, cname, size, str(dkw), rep))
+            if why:
+                viol.append(dict(obligation='C06.bounded.options[%s]' % d, input=dict(decoder=d, code=cname, size=list(size), deformation=None, decoder_options=dkw, **(inp or {})), detail=why))
+                break
     out, seen = [], set()
     for v in viol:
         if v['obligation'] not in seen:
             seen.add(v['obligation']); out.append(v)
-    return dict(bound='every decoder x 2-9 (code, size, deformation) cases; histories of 2k+1 decodes over k random valid syndromes incl. the zero syndrome, each compared with a fresh decoder; syndrome array and cached tables compared byte-wise',
+    return dict(bound='BP-OSD also with channel_update=True; histories include sector-pure syndromes (X-only / Z-only errors); every decoder x 2-9 (code, size, deformation) cases; histories of 2k+1 decodes over k random valid syndromes incl. the zero syndrome, each compared with a fresh decoder; syndrome array and cached tables compared byte-wise',
                 evaluations=ev, distinct_nontrivial=len(nt), rule='reused decoder vs fresh decoder on the same syndrome (validity only for the seeded-random sweep decoders)',
                 samples=samples, violations=out)
